@@ -356,7 +356,9 @@ class G:
         for k in range(nf):
             fa = []
             if self.pr("shape_ghost", 0.3):
-                g = self.ghost_instr(cparts, with_default=True)
+                # a bare ghost (no value: the `..update` of the type supplies it) leaves no line in the initialiser, so
+                # the members after it are rendered at a position that differs from their declaration index
+                g = self.ghost_instr(cparts, with_default=not self.pr("shape_bare_ghost", 0.0))
                 g.name = self.ch(["ghost", "ghost", "ghost_owned", "ghost_ref"])
                 fa.append(g)
                 if g.name != "ghost":
@@ -377,6 +379,9 @@ class G:
                     fa += pair
                     if nm != "map" and r.random() < 0.7:
                         fa.append(Instr("map", tgt, tag=("mmap", None)))
+                elif self.pr("shape_nameless", 0.0):
+                    # an inline expression and no member name: `~` stands for the member at the declaration position
+                    fa.append(Instr(self.ch(["map", "from", "map_owned", "map_ref", "into"]), self.ch(["~ + 1", "~.clone()", "{ ~.to_string() }", "f(&~, &@)"]), tag=("mmap", None)))
                 elif style == 0:
                     fa.append(Instr("map", tgt, tag=("mmap", None)))
                 elif style == 1:
@@ -870,7 +875,7 @@ PROFILES = {
     "parents": {"lit_args": 0.05, "parent_heavy": 0.8, "parent_depth": 3, "nested_parent": 0.45, "nested_instr": 0.5, "max_fields": 4, "fallible": 0.3, "multi_cpart": 0.5, "hints": 0.3,
                 "dedicated": 0.45, "member_instr": 0.3, "update": 0.1, "vars": 0.1, "generic_cpart": 0.25, "second_parent": 0.5, "attr_params": 0.25, "child_pair": 0.2},
     "trait-repeat": {"vars": 0.4, "fallible": 0.3, "attr_params": 0.1, "enum_item": 0.3, "lit": 0.3, "multi_open": 0.12, "twin_names": 0.2},
-    "shape-change": {"shape_change": 0.8, "shape_multi": 0.5, "shape_mixed": 0.5, "shape_forget": 0.3, "multi_cpart": 0.4, "shape_ghost": 0.3, "fallible": 0.3, "max_variants": 3, "variant_map": 0.1, "member_try": 0.1, "multi_instr": 0.5},
+    "shape-change": {"shape_change": 0.8, "update": 0.3, "shape_bare_ghost": 0.35, "shape_nameless": 0.25, "shape_multi": 0.5, "shape_mixed": 0.5, "shape_forget": 0.3, "multi_cpart": 0.4, "shape_ghost": 0.3, "fallible": 0.3, "max_variants": 3, "variant_map": 0.1, "member_try": 0.1, "multi_instr": 0.5},
     "unknowns": {"unknowns": 1.0, "max_fields": 3, "member_instr": 0.3, "multi_instr": 0.5, "max_variants": 3, "variant_map": 0.2},
     "faults": {"max_fields": 3, "member_instr": 0.4, "multi_cpart": 0.3, "fallible": 0.4, "drop_err": 0.15, "extra_err": 0.1, "ghost_field": 0.2, "ghost_default": 0.5,
                "dedicated": 0.4, "ghosts": 0.2, "where_clause": 0.2, "hints": 0.4, "drop_child_parents": 0.3, "drop_cp_entry": 0.2, "type_hint": 0.3,
